@@ -457,8 +457,8 @@ theorem blacklist_restrict_visit (t : BlTables) (keep : Str → Bool) (hs : SelH
     ((checksFor (blacklistCheck (t.restrict keep)).toList kind).flatMap (runCheck nm env)).filter hasId
       = ((checksFor (blacklistCheck t).toList kind).flatMap (runCheck nm env)).filter (keepEvent keep) := by
   -- the blacklist decides on the position-erased visit
-  let envE : Env := { env with v := env.v.erase }
-  have hkE : envE.node.kind = env.v.node.kind := by simp [envE, Env.node, Visit.erase]
+  let envE : Env := env.blind
+  have hkE : envE.node.kind = env.v.node.kind := by simp [envE, Env.blind, Env.node, Visit.erase]
   -- facts about rules the full check can report at this node
   have hraw : ∀ raw, blacklistRun t envE = .ok (some raw) → ∃ r ∈ t.rulesFor kind, raw.id = r.id := by
     intro raw hr
@@ -470,7 +470,7 @@ theorem blacklist_restrict_visit (t : BlTables) (keep : Str → Bool) (hs : SelH
       rw [hk2] at hrm
       rw [hk1, hs.importTables]; exact hrm
     · have hkc : envE.node.isKind "Constant" = true := by
-        simp only [envE, Env.node, Visit.erase, Node.erase_isKind]; exact hk
+        simp only [envE, Env.blind, Env.node, Visit.erase, Node.erase_isKind]; exact hk
       rw [blacklistRun_constant (e := envE) hkc] at hr; cases hr
   cases hbt : blacklistCheck t with
   | none =>
@@ -591,7 +591,7 @@ theorem runVisit_restrict (pc : PluginCfg) (fileName : Str) (t : BlTables) (keep
   | none => rfl
   | some kc =>
     obtain ⟨kind, ctx⟩ := kc
-    exact checks_restrict_kind pc fileName t keep hs hp nm { v := v, st := s, ctx := ctx, lines := lines } kind ctx hd
+    exact checks_restrict_kind pc fileName t keep hs hp nm { v := v, st := s, ctx := ctx } kind ctx hd
 
 theorem scanVisits_restrict (pc : PluginCfg) (fileName : Str) (t : BlTables) (keep : Str → Bool)
     (hs : SelHyp t keep) (hp : ∀ c ∈ pluginChecks pc fileName, IsPlugin c)
